@@ -155,6 +155,19 @@ CHECKS["C04"] = dict(
     technique="TLA+ operator-precedence spec model-checked with TLC (validity + uniqueness); generated chains replayed into parser and executor",
     design="3/C04")
 
+CHECKS["C01"] = dict(
+    text="spec/Lexer.tla is the tokeniser as a byte-level state machine (one transition per state-function call of lex.go, every "
+         "slice bound an explicit precondition). spec/props/C01.tla runs it with TLC on every concatenation of <= 3 fragments of a "
+         "70-fragment alphabet and every byte-prefix of those, checking in every state CursorsInRange and StepsBounded, and at the "
+         "end ErrorLast, Ends, Partition and PositionsExact; each source is then replayed into parse.Parse, Env.Parse and "
+         "Env.Execute (core and Twig) in a worker process and must return (no panic in the tokeniser goroutine, no deadlock, no "
+         "deadline); seeded random byte strings and mutations of 14 corpus templates are replayed the same way.",
+    note="Trusted: TLC, the worker pool's watchdog (a case that dies or hangs twice is a violation). Token streams that differ from "
+         "Lexer.tla are counted as spec drift in the evidence, not as C01 violations (tokens are judged by C14/C20). Nesting beyond "
+         "the generators' depth is outside the claim.",
+    technique="TLA+ tokeniser state machine model-checked with TLC; TLC-enumerated sources and random mutations replayed under a process watchdog",
+    design="3/C01")
+
 NOT_YET = {}
 
 props = [json.loads(l)["id"] for l in open(os.path.join(VERIF, "properties.jsonl"))]
